@@ -64,7 +64,11 @@ fn main() {
         }
     }
     // panics inside the implementation are caught per case; keep the default hook quiet
-    std::panic::set_hook(Box::new(|_| {}));
+    std::panic::set_hook(Box::new(|i| {
+        if std::env::var("VERIF_DEBUG_PANICS").is_ok() {
+            eprintln!("panic: {}", i);
+        }
+    }));
     let mut run = Run::new(&prop, seed, tier);
     if mode == "corr" {
         run.set_live_dir(&out);
